@@ -396,6 +396,21 @@ fn case_strategy() -> impl Strategy<Value = Case> {
 }
 
 fn run(e: &Engine) {
+    // bounded-exhaustive: EVERY letter string up to a length as a character datum of a numeric_value
+    // (keywords in their short forms resolve; every other string is what the underlying type makes of it)
+    const LETTERS: &[u8] = b"ABCDEFGHIJKLMNOPQRSTUVWXYZ";
+    let kw = crate::gen::enumstr::Partitioned { alpha: LETTERS, max_len: if cfg!(debug_assertions) { e.tier.pick(3usize, 4) } else { e.tier.pick(4usize, 5) }, prefix_len: 2 };
+    let kwr = &kw;
+    const TYS: [Ty; 5] = [Ty::U8, Ty::I64, Ty::F32, Ty::F64, Ty::Freq];
+    e.enumerate::<Case, _, _>(
+        "every-letter-string-as-keyword",
+        kw.parts() * TYS.len() as u64,
+        move |p, f| {
+            let ty = TYS[(p / kwr.parts()) as usize];
+            kwr.run(p % kwr.parts(), &mut |s| s.is_empty() || f(Case { ty, tok: Tok::Chr(String::from_utf8_lossy(s).into_owned()), min: 2f64.to_bits(), max: 100f64.to_bits(), default: Some(7f64.to_bits()), path: (s.len() % 6) as u8 }))
+        },
+        check,
+    );
     e.proptest("numeric-value", e.tier.pick(1_000_000, 20_000_000), case_strategy, check);
     e.require_fraction("keyword", "keyword", 1.0);
     if !e.replay_only && !e.failed() {
